@@ -602,6 +602,42 @@ def run_C13(em, impl, tabs, rng, thorough):
             em.violation("C13: when the first parses of a process run concurrently (12 threads released together in a fresh interpreter) a result differs from the sequential parse of the same bytes (%s)" % bad_cold[0],
                          {"payload": bad_cold[1] or "", "note": "cold start: fresh interpreter, 12 threads, switch interval 1e-6"}, {})
         em.count("coldstart.rounds", rounds)
+    # a caller's mutable receive buffer (recv_into / readinto style): parse(bytearray), keep the result, overwrite the buffer in place with
+    # another frame of the same length, parse that: the first result must still say what it said (a result depends on the bytes it was
+    # parsed from, not on what the caller's buffer holds later)
+    from pyrtcm import RTCMReader as _RR
+
+    def _obs(m):
+        # (repr() is left out: for a bytearray carrier it legitimately prints bytearray(b'...'))
+        return (str(m), bytes(m.payload), m.identity, bytes(m.serialize()), [(k, repr(v)) for k, v in m.__dict__.items() if not k.startswith("_")])
+    for pl in rng.sample(pays, min(len(pays), 60 if thorough else 25)):
+        if not 2 <= len(pl) <= 1023:
+            continue
+        f1 = gen.frame(pl)
+        f2 = gen.frame(bytes([0xFE, 0x80 | rng.randrange(16)]) + bytes(rng.getrandbits(8) for _ in range(len(pl) - 2)))
+        buf = bytearray(f1)
+        em.direct_evaluations += 1
+        try:
+            m1 = _RR.parse(buf)
+            before = _obs(m1)
+            fresh = _obs(_RR.parse(bytes(f1)))
+        except Exception:  # noqa
+            continue
+        buf[:] = f2
+        try:
+            m2 = _RR.parse(buf)
+            o2 = _obs(m2)
+        except Exception as e:  # noqa
+            o2 = repr(e)
+        try:
+            after = _obs(m1)
+        except Exception as e:  # noqa
+            after = repr(e)
+        if before != fresh or after != before or o2 != _obs(_RR.parse(bytes(f2))):
+            em.violation("C13: a message parsed from a caller's bytearray changes (or differs from the parse of the same bytes) once the caller reuses the buffer for the next frame",
+                         {"frame": f1.hex(), "next_frame_in_same_buffer": f2.hex()}, {"before": str(before[0])[:200], "after": str(after if isinstance(after, str) else after[0])[:200]})
+            break
+    em.count("mutable_buffer_reuse", 1)
     ref = {}
     for p in set(order):
         ref[p] = impl.observe(p, 1, FULL)[:3]
